@@ -132,3 +132,22 @@ Theorem inv2_step_covers_all : inv2_step_full_statement.
 Proof.
   intros m _. destruct m; vm_compute; eauto.
 Qed.
+
+(* ---- one theorem for every reachable state of the whole model ---------------------------------- *)
+From Acme.C04 Require Import Proofs_Cor.
+
+Theorem reach2_model_invariants s : Reach2 s → ModelInvariants s.
+Proof.
+  intros Hr. pose proof (inv2_reachable s Hr) as [[Hi H3] Hreg].
+  unfold ModelInvariants. split_and!.
+  - by apply keys_unique.
+  - by apply lookup_by_name_spec.
+  - by apply links_symmetric.
+  - by apply containers_exclusive.
+  - intros nd ND HND. by apply node_interfaces_contiguous.
+  - by apply references_exact_inv.
+  - by apply signal_names_unique_all_depths.
+  - by apply get_signal_by_name_spec.
+  - by apply signal_parent_links.
+  - by apply signal_exclusive.
+Qed.
